@@ -124,6 +124,46 @@ def answerRt (ws : List String) : String :=
     | _, _ => "bad-case format-or-arrow"
   | _ => "bad-case short"
 
+/-! ### q: FromQuery on a typed parameter set -/
+
+def parseQInt (t : String) : Option QInt :=
+  if t == "-" then some .absent else if t == "bad" then some .bad else t.toInt?.map .val
+
+def parseQuery (kvs : KVs) : Option Query := do
+  let g := fun (n : String) => getF kvs n
+  let mode ← g "mode"
+  let expat ← g "expat"
+  let expin ← g "expin"
+  let expAt ← if expat == "-" then some none else (parseTime expat).map some
+  pure {
+    name := ← g "name", mode := if mode == "-" then "" else unStr mode,
+    replication := ← parseQInt (← g "repl"), rmin := ← parseQInt (← g "rmin"), rmax := ← parseQInt (← g "rmax"),
+    shardSize := ← parseQInt (← g "shard"), userAllocs := listToks (← g "ua"),
+    expireAt := expAt,
+    expireIn := if expin == "-" then none else some (expin == "ok"),
+    metas := ← parseMeta (← g "meta"), pinUpdate := parseCidOpt (← g "upd"),
+    origins := ← (listToks (← g "orig")).mapM parseOrigin }
+
+def answerQ (ws : List String) : String :=
+  match splitArrow ws with
+  | none => "bad-case arrow"
+  | some (pre, post) =>
+    match (parseKVs pre).bind parseQuery, post with
+    | none, _ => "bad-case q-parameters"
+    | some _, ["panic"] => "propfail no_crash arm=q-panic"
+    | some q, status :: outToks =>
+      match parseKVs outToks with
+      | none => "bad-case output-tokens"
+      | some out =>
+        -- an acceptable expire-in without expire-at gives a clock-dependent expiry: not modelled
+        if q.expireIn == some true && q.expireAt.isNone then "bad-case q-clock-dependent" else
+        let r : Res KVs := match fromQuery q with | .ok po => .ok (showOpts po "") | .encErr => .encErr | .decErr => .decErr
+        let st := if status == "err" then "decerr" else status
+        if !resMatches r st out then
+          "diff arm=q-" ++ status ++ " first=" ++ (match r with | .ok kvs => firstDiff kvs out | _ => "status") ++ " model=" ++ (showRes r).take 300
+        else "ok arm=q-" ++ status ++ " trivial"
+    | _, _ => "bad-case q-shape"
+
 /-! ### eq -/
 
 def splitBar (ws : List String) : List (List String) :=
@@ -238,6 +278,7 @@ def answerFuzz (ws : List String) : String :=
 def answer (ws : List String) : String :=
   match ws with
   | "rt" :: rest => answerRt rest
+  | "q" :: rest => answerQ rest
   | "eq" :: rest => answerEq rest
   | "str" :: rest => answerStr rest
   | "fuzz" :: rest => answerFuzz rest
